@@ -318,6 +318,8 @@ impl super::MainState {
                     // add new user to hash map
                     let user_state = &mut conn_state.user_state;
                     user_state.registered = registered;
+                    #[cfg(sirc_verif)]
+                    verif_point("authenticate").await;
                     let mut state = self.state.write().await;
                     if !state.users.contains_key(&user_nick) {
                         let user = User::new(
@@ -475,6 +477,8 @@ impl super::MainState {
     ) -> Result<(), Box<dyn Error>> {
         if !conn_state.user_state.authenticated {
             if !self.state.read().await.users.contains_key(nick) {
+                #[cfg(sirc_verif)]
+                verif_point("nick").await;
                 conn_state.user_state.set_nick(nick.to_string());
                 // try authentication
                 self.authenticate(conn_state).await?;
